@@ -38,6 +38,9 @@ def configs():
     out.append(('dir-source', lambda p: ar.dir_archive(p + '.d', cached=False, serialized=False), 'dirsrc', 'lit'))
     # keys whose directory names collide (known finding K1): anything else that goes wrong here is a violation
     out.append(('dir-alias', lambda p: ar.dir_archive(p + '.d', cached=False), 'diralias', 'any'))
+    # keys whose entry name is longer than a file name may be (known finding K15: the store is refused); next to
+    # them, keys just under the limit that differ only in their last character
+    out.append(('dir-long', lambda p: ar.dir_archive(p + '.d', cached=False), 'dirlong', 'any'))
     # source mode with keys whose directory name is not an importable module name (known finding K9)
     out.append(('dir-source-names', lambda p: ar.dir_archive(p + '.d', cached=False, serialized=False), 'dirsrcbad', 'lit'))
     out.append(('sql', lambda p: ar.sqltable_archive('sqlite:///%s.db?table=memo' % p, cached=False), 'sql', 'sql'))
@@ -53,6 +56,7 @@ KEYS = {
     'dir': [0, 1, 2, 'a', 'b', (1, 2), b'k1', 'k2', 'Key', 'key', 'KEY', 7777, ('t', 1), '_x', 'K_y', -3, 'x-y', 'u-v-w'],
     'diralias': [0, '0', 1, '1', 'a-b', 'a_b', (1, 2), '(1, 2)', 'z'],
     'dirsrc': ['a', 'b', 'k1', 'zz', 0, 1, 'x-y', -3],
+    'dirlong': ['a', 'L' * 252 + 'a', 'L' * 252 + 'b', 'M' * 262 + 'a', 'M' * 262 + 'b', 7],
     'dirsrcbad': ['a', 0, (1, 2), 'x y', 2.5, 'k1'],
     'dirstr': ['a', 'b', 'c', 'key', 'Key', 'k1', 'zz', '_u', 'x-y'],
     'sql': [0, 1, 2, 'a', 'b', 'k1', b'kb', -3, 'x y'],
@@ -319,7 +323,11 @@ def run_ops(label, ctor, ops, scratch):
         try:
             cur = dict(a.items())
             if not same_dict(cur, ref if not null else {}):
-                problems.append({'step': i, 'op': op, 'what': 'contents after %s are %r, a dict holds %r' % (opname(op), cur, ref)})
+                refd = ref if not null else {}
+                problems.append({'step': i, 'op': op, 'what': 'contents after %s are %r, a dict holds %r' % (opname(op), cur, ref),
+                                 'missing': sorted(repr(x) for x in refd if x not in cur),
+                                 'extra': sorted(repr(x) for x in cur if x not in refd),
+                                 'changed': sorted(repr(x) for x in refd if x in cur and not same_val(cur[x], refd[x]))})
                 ref = dict(cur) if not null else ref
             if len(a) != len(cur):
                 problems.append({'step': i, 'op': op, 'what': 'len() is %d but there are %d items' % (len(a), len(cur))})
